@@ -72,6 +72,11 @@ def mapGet {κ ν : Type} [BEq κ] (m : List (κ × ν)) (k : κ) (zero : ν) : 
 def mapHas {κ ν : Type} [BEq κ] (m : List (κ × ν)) (k : κ) : Bool :=
   (m.find? fun e => e.1 == k).isSome
 
+/-- `m[k] = v` on a map kept as an association list without duplicate keys (the order of the list is the
+order a `range` happens to visit the entries in; nothing may depend on it). -/
+def mapSet {κ ν : Type} [BEq κ] (m : List (κ × ν)) (k : κ) (v : ν) : List (κ × ν) :=
+  if m.any (fun e => e.1 == k) then m.map (fun e => if e.1 == k then (k, v) else e) else m ++ [(k, v)]
+
 /-- `make([]T, 0, c)`: panics when the capacity is negative; the capacity itself is not modelled. -/
 def makeCap {α : Type} (c : Int) : Option (List α) := if c < 0 then none else some []
 
